@@ -25,3 +25,20 @@ Theorem c15_stale_handler_id_is_a_no_op :
     sm_get k (w_hs w) = None -> remove_handler beh k w = ROk false w.
 Proof. exact remove_handler_stale. Qed.
 Print Assumptions c15_stale_handler_id_is_a_no_op.
+
+Require Import EV.Member EV.Listen.
+
+(* on every world satisfying the listener invariant, every handler a delivery runs is live: a
+   removed handler (its id is dead, and dead ids never become valid again - C03/C16) is in no
+   listener list, so it never runs again *)
+Theorem c15_only_live_handlers_are_run :
+  forall (w : world) (it : qitem) (hk : key),
+    HL w -> In hk (delivered_to w it) -> exists h, hlive w hk h.
+Proof. exact delivered_handlers_are_live. Qed.
+Print Assumptions c15_only_live_handlers_are_run.
+
+Theorem c15_listener_invariant_in_every_reachable_world :
+  forall (beh : hinfo -> logent -> N -> script) (fuel p : N) (ops : list top_all),
+    AI (fold_left (run_top_all beh) ops (world0 fuel p)).
+Proof. exact reachable_AI. Qed.
+Print Assumptions c15_listener_invariant_in_every_reachable_world.
